@@ -39,9 +39,41 @@ FRAMING_KINDS = ("truncate", "length", "inner-trailing", "outer-trailing")
 
 # ------------------------------------------------------------------ running the real code
 
+class Hang(Exception):
+    """the code under test did not return within the time limit"""
+
+
+class time_limit(object):
+    """SIGALRM watchdog around one call into the code under test (main thread only): a changed
+    parser that loops forever must become a finding, not a frozen or memory-eating check"""
+
+    def __init__(self, seconds=3.0):
+        self.seconds = seconds
+        self.on = False
+
+    def __enter__(self):
+        import signal
+        import threading
+        if threading.current_thread() is threading.main_thread() and hasattr(signal, "setitimer"):
+            def handler(signum, frame):
+                raise Hang("no result after %.0f s" % self.seconds)
+            self.old = signal.signal(signal.SIGALRM, handler)
+            signal.setitimer(signal.ITIMER_REAL, self.seconds)
+            self.on = True
+        return self
+
+    def __exit__(self, *a):
+        if self.on:
+            import signal
+            signal.setitimer(signal.ITIMER_REAL, 0)
+            signal.signal(signal.SIGALRM, self.old)
+        return False
+
+
 def real_write(ent, obj):
     try:
-        return ("ok", ent.write(obj))
+        with time_limit():
+            return ("ok", ent.write(obj))
     except ValueError:
         return ("overflow",)
     except Exception as e:  # noqa
@@ -50,7 +82,8 @@ def real_write(ent, obj):
 
 def real_parse(ent, data):
     try:
-        obj, consumed = ent.parse(data)
+        with time_limit():
+            obj, consumed = ent.parse(data)
     except SyntaxError:
         return ("decode_error",)
     except ent.reject_also:
@@ -77,6 +110,7 @@ class Run(object):
         self.pending = []          # (ent, kind, data, real_result, flagged)
         self.info = {}             # non-framing exceptions etc. for the evidence
         self.explained = 0
+        self.hangs = {}
         self.convicted = set()     # extension types whose own class was shown to violate the property in this run
 
     # ---- model access
@@ -238,10 +272,16 @@ class Run(object):
 
     def bytes_case(self, ent, kind, data):
         ctx = self.ctx
+        if self.hangs.get(ent.name, 0) >= 3:
+            ctx.count("skipped-after-hangs:" + ent.name)
+            return
         ctx.count("mutant:" + kind)
         ctx.case(key=("m", ent.name, bytes(data)), sample=None)
         res = real_parse(ent, data)
         ctx.count("real:" + res[0].split(":")[0])
+        if res[0] == "exception:Hang":
+            self.hangs[ent.name] = self.hangs.get(ent.name, 0) + 1
+            kind = kind if kind in FRAMING_KINDS else "length"     # not returning is never acceptable
         flagged = self.oracle(ent, kind, data, res)
         self.pending.append(("dec", ent, kind, bytes(data), res, flagged))
 
@@ -295,6 +335,14 @@ class Run(object):
                     if flagged or (res[0] == "ok" and self.embeds_convicted(res[3])):
                         self.explained += 1
                     else:
+                        if rv[0] == "ok" and mv[0] == "decode_error":
+                            # DESIGN C15: the real parser accepting what decode_exact rejects is a violation
+                            cls = ent.cls
+                            ctx.violation("c15:%s:accepts-what-framing-rejects" % cls,
+                                          "%s accepted %d bytes that the format's framing (Lean model, decode_exact) rejects: %s"
+                                          % (cls, len(data), data.hex()[:160]),
+                                          {"format": ent.name, "class": cls, "kind": kind, "bytes": data.hex(),
+                                           "defect": "accepts-what-framing-rejects", "model": m[:100]})
                         ctx.disagree("decode:" + ent.name, {"format": ent.name, "kind": kind, "bytes": data.hex()[:400]},
                                      m[:300], (rv[0], V.render(rv[1])[:300], rv[2]) if rv[0] == "ok" else rv)
 
@@ -814,12 +862,12 @@ def do_format(r, name):
     uniq = list(dict.fromkeys(encs))
     big = [b for b in uniq if len(b) > 2000]
     small = [b for b in uniq if len(b) <= 2000]
-    use = small + big[:ctx.pick(2, 6)]
+    use = small + big[:ctx.pick(1, 6)]
     lens = r.lens_of(ent, use)
     for b, ls in zip(use, lens):
         large = len(b) > 2000
         for kind, m in V.mutants(b, ls, ctx.rng, small_limit=ctx.pick(160, 400), all_bytes=not large,
-                                 max_trunc=None if len(b) <= 600 else 12):
+                                 max_trunc=None if len(b) <= 600 else ctx.pick(6, 16), few=large and not ctx.thorough()):
             r.bytes_case(ent, kind, m)
     r.flush()
 
@@ -848,6 +896,22 @@ def run(ctx):
     real_asn1(r)
     writer_prims(r)
     parser_prims(r)
+    # core.finish() folds broken obligations / correspondence into the concrete violations when there
+    # are any; known findings are always present here, so state them explicitly (same keys as core)
+    b = ctx.build or {}
+    for t in b.get("failed", []):
+        ctx.violation("obligation:" + t, "proof obligation no longer checks: " + t,
+                      {"stage": "obligation", "theorem": t, "log": b.get("log_tail", "")}, found=False)
+    for t in b.get("audit_problems", []):
+        ctx.violation("audit:" + t, "axiom/sorry audit failed: " + t, {"stage": "audit", "detail": t}, found=False)
+    if ctx.disagreements:
+        d = ctx.disagreements[0]
+        ctx.violation("correspondence:" + d["stream"], "model and implementation disagree (%d cases) on stream %s"
+                      % (len(ctx.disagreements), d["stream"]),
+                      {"stage": "correspondence", "first": d, "all": ctx.disagreements[:10]}, found=False)
+    if r.lc is None:
+        ctx.violation("obligation:driver", "the Lean driver drv_c15 did not build: no correspondence was checked",
+                      {"stage": "obligation", "theorem": "drv_c15"}, found=False)
     ctx.extra["formats_checked"] = len(r.trees)
     ctx.extra["non_framing_observations"] = {k: v for k, v in sorted(r.info.items())[:40]}
     ctx.extra["disagreements_explained_by_reported_violations"] = r.explained
@@ -856,6 +920,12 @@ def run(ctx):
 def replay(ctx, rep):
     from .c15_real import opaque_asn1
     inp = rep["input"]
+    if inp.get("stage") in ("correspondence", "obligation", "audit"):
+        print("replay of stage %r: re-running the whole check" % inp.get("stage"))
+        from .. import leanbuild
+        ctx.build = leanbuild.build(ctx.pid, TRANSLATORS, ctx.repo, ctx.tier)
+        run(ctx)
+        return bool(ctx.violations and any(v["key"] == rep.get("key") or not v["found"] for v in ctx.violations))
     r = Run(ctx)
     before = len(ctx.violations)
     if inp.get("stage") in ("writer", "parser", "legacy") or "format" not in inp:
